@@ -40,6 +40,8 @@ _THIS = sys.modules[__name__]
 
 # --------------------------------------------------------------------------------------------
 def _ghost_scalar(x):
+    if isinstance(x, core.SymFP):
+        return 0.0
     if isinstance(x, SymBool):
         return False
     if isinstance(x, SymInt):
@@ -78,6 +80,12 @@ def _cast_elem(v, dtype):
             return float(v)
         return v
     # symbolic
+    if isinstance(v, core.SymFP):
+        if k in "iu":
+            return v.to_int_code(info=str(dtype))
+        if k == "b":
+            return v != 0
+        return v
     if k == "b":
         if isinstance(v, SymBool):
             return v
@@ -818,10 +826,19 @@ def _truthy(a):
     return builtins.bool(a)
 
 
+def _k_mul(a, b):
+    # value * mask: keep the term linear (ite) instead of a symbolic product
+    if isinstance(a, SymBool) and not isinstance(b, SymBool):
+        return ite(a, b, 0 if not isinstance(b, (float, core.SymReal)) else 0.0)
+    if isinstance(b, SymBool) and not isinstance(a, SymBool):
+        return ite(b, a, 0 if not isinstance(a, (float, core.SymReal)) else 0.0)
+    return a * b
+
+
 _KERNELS = {
     "add": operator.add,
     "subtract": operator.sub,
-    "multiply": operator.mul,
+    "multiply": _k_mul,
     "true_divide": _k_truediv,
     "floor_divide": _k_floordiv,
     "mod": operator.mod,
@@ -1110,6 +1127,8 @@ def _mk_unary(name, kern, keep_int=False):
 
 
 def _u_floor(x):
+    if isinstance(x, core.SymFP):
+        return x.__floor__()
     if is_sym(x):
         f = x.__floor__()
         return f if x.is_int else SymReal(z3.ToReal(f.t))
@@ -1117,6 +1136,8 @@ def _u_floor(x):
 
 
 def _u_ceil(x):
+    if isinstance(x, core.SymFP):
+        return x.__ceil__()
     if is_sym(x):
         f = x.__ceil__()
         return f if x.is_int else SymReal(z3.ToReal(f.t))
@@ -1124,6 +1145,8 @@ def _u_ceil(x):
 
 
 def _u_trunc(x):
+    if isinstance(x, core.SymFP):
+        return x.__trunc__()
     if is_sym(x):
         f = x.__trunc__()
         return f if x.is_int else SymReal(z3.ToReal(f.t))
@@ -1131,6 +1154,8 @@ def _u_trunc(x):
 
 
 def _u_rint(x):
+    if isinstance(x, core.SymFP):
+        return x.__round__()
     if is_sym(x):
         if x.is_int:
             return x
@@ -1179,9 +1204,9 @@ log10 = _mk_unary("log10", _u_log10)
 log = _mk_unary("log", _u_log)
 square = _mk_unary("square", _u_square)
 logical_not = _mk_unary("logical_not", _not)
-isfinite = _mk_unary("isfinite", lambda x: True)
-isnan = _mk_unary("isnan", lambda x: False)
-isinf = _mk_unary("isinf", lambda x: False)
+isfinite = _mk_unary("isfinite", lambda x: ~(x.isnan() | x.isinf()) if isinstance(x, core.SymFP) else True)
+isnan = _mk_unary("isnan", lambda x: x.isnan() if isinstance(x, core.SymFP) else False)
+isinf = _mk_unary("isinf", lambda x: x.isinf() if isinstance(x, core.SymFP) else False)
 
 # `abs` is exported under the numpy name as well
 
